@@ -45,7 +45,8 @@ Fixpoint all_m {A} (f : A -> result bool) (l : list A) : result bool :=
 (* ---- classes named in isinstance / type(..) is tests ---- *)
 Inductive pyclass :=
 | C_NoneType | C_bool | C_int | C_float | C_str | C_bytes | C_list | C_tuple | C_dict | C_set | C_frozenset
-| C_date | C_datetime | C_Record | C_RecordSet | C_RecordList | C_AltText | C_RaisedException.
+| C_date | C_datetime | C_Record | C_RecordSet | C_RecordList | C_AltText | C_RaisedException
+| C_RecordStub | C_RecordSetStub | C_Unmarshallable.
 
 Definition isinstance1 (c : pyclass) (v : value) : bool :=
   match c, v with
@@ -66,6 +67,9 @@ Definition isinstance1 (c : pyclass) (v : value) : bool :=
   | C_RecordSet, PRecordSet _ _ _ _ => true
   | C_AltText, PAltText _ => true
   | C_RaisedException, PErr _ _ _ _ => true
+  | C_RecordStub, PRecordStub _ _ => true
+  | C_RecordSetStub, PRecordSetStub _ _ => true
+  | C_Unmarshallable, PUnmarsh _ => true
   | _, _ => false            (* frozensets and every other object are opaque in V: no listed class *)
   end.
 Definition p_isinstance (cs : list pyclass) (v : value) : bool := existsb (fun c => isinstance1 c v) cs.
